@@ -71,6 +71,11 @@ type c14Topo struct {
 	Shared  bool // a shared cache exists
 	Common  bool // the "local" cache of both nodes is the same store (and is the shared cache)
 	Persist bool
+	// Raw: the per-node caches are the REAL *memory.Storage objects, not gated doubles
+	// (code paths that type-assert the cache tier see what production sees). Cache calls
+	// are then neither scheduling points nor logged; write-backs are made to complete
+	// before the next scheduling point instead of being scheduled.
+	Raw bool
 }
 
 func (t c14Topo) String() string {
@@ -188,6 +193,7 @@ type c14World struct {
 	nodes [2]*Storage
 	cache [2]*c14Cache
 	shrd  *c14Cache
+	raw   [2]*memory.Storage
 	pers  *c14Pers
 
 	mu       sync.Mutex
@@ -212,6 +218,7 @@ type c14World struct {
 	watchdog   atomic.Int32
 	wbMissing  atomic.Int32
 	ungated    atomic.Int32
+	rawPending atomic.Bool
 	cancel     context.CancelFunc
 }
 
@@ -236,7 +243,9 @@ func c14NewWorld(tp c14Topo, cat c14Cat, key string, s *vk.Sched, fault *c14Faul
 		c.SetHook(w.hook)
 		return c
 	}
-	if tp.Common {
+	if tp.Raw {
+		w.raw[0], w.raw[1] = memory.New(ctx), memory.New(ctx)
+	} else if tp.Common {
 		c := mk("cacheAll")
 		w.cache[0], w.cache[1], w.shrd = c, c, c
 	} else {
@@ -253,6 +262,10 @@ func c14NewWorld(tp c14Topo, cat c14Cat, key string, s *vk.Sched, fault *c14Faul
 		var sc types.CacheStorage
 		if w.shrd != nil {
 			sc = w.shrd
+		}
+		if tp.Raw {
+			w.nodes[n] = NewWithSharedCache(ctx, w.raw[n], nil, w.pers, cfg)
+			continue
 		}
 		w.nodes[n] = NewWithSharedCache(ctx, w.cache[n], sc, w.pers, cfg)
 	}
@@ -290,7 +303,9 @@ func (w *c14World) onPersHit(g int64) {
 	}
 	s := w.sched
 	var px *c14Proxy
-	if w.phase.Load() == 1 && s != nil && c14NoAsyncWB.Load() < 3 {
+	if w.topo.Raw {
+		w.rawPending.Store(true)
+	} else if w.phase.Load() == 1 && s != nil && c14NoAsyncWB.Load() < 3 {
 		w.bgSeq++
 		px = &c14Proxy{name: fmt.Sprintf("wb%d", w.bgSeq), arrived: make(chan struct{}), release: make(chan struct{}), done: make(chan struct{})}
 		w.proxies = append(w.proxies, px)
@@ -366,6 +381,7 @@ func (w *c14World) hook(tier, op, key string) error {
 			w.watchdog.Add(1)
 		}
 	} else if harness && phase == 1 && s != nil {
+		w.awaitRawQuiescent()
 		s.Yield(tier + "." + op)
 	} else if !harness && phase == 1 {
 		w.ungated.Add(1) // a background goroutine nobody announced: runs unscheduled
@@ -393,8 +409,41 @@ func (w *c14World) hook(tier, op, key string) error {
 	return nil
 }
 
+// awaitRawQuiescent (raw topology only; such worlds run one at a time) waits until no
+// write-back goroutine of the facade exists any more. Decided from goroutine stacks,
+// bounded; a timeout is reported as watchdog (inconclusive), never as a violation.
+func (w *c14World) awaitRawQuiescent() bool {
+	if !w.topo.Raw || !w.rawPending.Load() {
+		return true
+	}
+	deadline := time.Now().Add(500 * time.Millisecond)
+	buf := make([]byte, 1<<16)
+	for {
+		n := runtime.Stack(buf, true)
+		for n >= len(buf) {
+			buf = make([]byte, 2*len(buf))
+			n = runtime.Stack(buf, true)
+		}
+		d := buf[:n]
+		if !bytes.Contains(d, []byte("storage/hybrid.(*Storage).Get.func")) &&
+			!bytes.Contains(d, []byte("storage/hybrid.(*Storage).getSharedPersistent.func")) {
+			w.rawPending.Store(false)
+			return true
+		}
+		if time.Now().After(deadline) {
+			w.watchdog.Add(1)
+			return false
+		}
+		runtime.Gosched()
+		time.Sleep(20 * time.Microsecond)
+	}
+}
+
 // awaitDone waits (bounded) until every expected write-back completed.
 func (w *c14World) awaitDone() bool {
+	if w.topo.Raw {
+		return w.awaitRawQuiescent()
+	}
 	if c14NoAsyncWB.Load() >= 3 {
 		return true
 	}
@@ -492,6 +541,7 @@ func (w *c14World) do(thread string, st c14Step) *c14HOp {
 	w.mu.Lock()
 	delete(w.cur, thread)
 	w.mu.Unlock()
+	w.awaitRawQuiescent()
 	return op
 }
 
